@@ -13,17 +13,21 @@ import (
 func init() {
 	core.Register(&core.Check{
 		ID: "C07", Level: "fault_enumeration",
-		Rule: "for each generated (prepared history, target write) pair — every write kind, on a fresh (initializing) ledger and on an in-use ledger, incl. dry runs and naturally failing inputs — a dry pass counts the store calls / direct SQL statements of the target operation, then EVERY position is failed with each of {driver error, context cancelled, deadlock, serialization failure, too many clients}, every COMMIT with a commit failure and every ROLLBACK with a rollback failure; after each run the committed snapshot, the published events and open transactions/locks are compared. Distinct = (op kind, ledger state, site, error kind, outcome class); non-trivial = the fault fired",
+		Rule:        "for each generated (prepared history, target write) pair — every write kind, on a fresh (initializing) ledger and on an in-use ledger, incl. dry runs and naturally failing inputs — a dry pass counts the store calls / direct SQL statements of the target operation, then EVERY position is failed with each of {driver error, context cancelled, deadlock, serialization failure, too many clients}, every COMMIT with a commit failure and every ROLLBACK with a rollback failure; after each run the committed snapshot, the published events and open transactions/locks are compared. Distinct = (op kind, ledger state, site, error kind, outcome class); non-trivial = the fault fired",
 		Assumptions: []string{seqAssume, "fault granularity is the store call / SQL statement; partial effects inside one SQL statement are not modelled"},
-		Run:  func(r *core.Run) { runFaultEnum(r, "C07") },
+		Run: func(r *core.Run) {
+			runFaultEnum(r, "C07")
+			runCommitHonesty(r, "C07")
+		},
 	})
 	core.Register(&core.Check{
 		ID: "C31", Level: "fault_enumeration",
-		Rule: "same enumeration as C07 (every write kind x {fresh initializing ledger, in-use ledger} x {success, business failure, dry run, injected failure at every store call, injected commit failure}) with the cluster's totally ordered trace on: at every listener call no SQL transaction of the operation may still be open, failed / dry-run / rolled-back writes publish nothing, committed writes publish exactly one event. Distinct = (op kind, ledger state, site, error kind, outcome class); non-trivial = the operation reached a listener call or a commit/rollback decision. Plus the C32 bulk workload (atomic / non-atomic / parallel bulks with failing elements, on in-use ledgers and as the first write of an initializing ledger) judged by the same trace automaton and event counts",
+		Rule:        "same enumeration as C07 (every write kind x {fresh initializing ledger, in-use ledger} x {success, business failure, dry run, injected failure at every store call, injected commit failure}) with the cluster's totally ordered trace on: at every listener call no SQL transaction of the operation may still be open, failed / dry-run / rolled-back writes publish nothing, committed writes publish exactly one event. Distinct = (op kind, ledger state, site, error kind, outcome class); non-trivial = the operation reached a listener call or a commit/rollback decision. Plus the C32 bulk workload (atomic / non-atomic / parallel bulks with failing elements, on in-use ledgers and as the first write of an initializing ledger) judged by the same trace automaton and event counts",
 		Assumptions: []string{seqAssume},
 		Run: func(r *core.Run) {
 			runFaultEnum(r, "C31")
-			runC32(r, "C31") // bulk paths: atomic / non-atomic, also as first write of an initializing ledger
+			runCommitHonesty(r, "C31") // the store below the events wrapper: Commit()==nil only after a COMMIT
+			runC32(r, "C31")           // bulk paths: atomic / non-atomic, also as first write of an initializing ledger
 		},
 	})
 }
